@@ -28,7 +28,24 @@ structure PoolSt where
   ids : List Nat := []          -- the identity of each listener's Subprocess object (unique in the world)
   names : List String := []     -- each listener's `config.name` (the same name may occur in several pools)
   dir : List (Nat × String) := []   -- every process object of the world with its name (what `event.process.config.name` reads)
+  active : Bool := true         -- the pool is in `supervisord.process_groups` (its `EventListenerPool` object exists and is in use)
+  used : Bool := true           -- the pool object has been created (`false`: a configured pool that has not been added yet)
 deriving Repr
+
+/-- the type a callback is subscribed for: an `EventTypes` member, or `EventRejectedEvent` -/
+inductive RTy
+  | cls (c : Cls)
+  | rejected
+deriving DecidableEq, Repr
+
+/-- the callbacks pools subscribe: the bound methods `pool._acceptEvent` / `pool.handle_rejected` of pool `i` -/
+inductive Cb
+  | accept (i : Nat)
+  | handleRejected (i : Nat)
+deriving DecidableEq, Repr
+
+/-- one entry of `events.callbacks` -/
+abbrev Entry := RTy × Cb
 
 inductive POut
   | lis (pool lis : Nat) (o : Listener.Out)
@@ -42,6 +59,7 @@ structure W where
   outs : List POut := []
   err : Option Listener.Err := none
   identifier : String := "supervisor"
+  reg : List Entry := []        -- `events.callbacks`, in subscription order
 
 /-- `new_serial(inst)` -/
 def newSerial (serial : Int) : Int :=
@@ -102,16 +120,62 @@ def acceptEvent (i e : Nat) (head : Bool) (w : W) : W :=
     else insertEv i e head w1
   | _, _ => w
 
-/-- the subscription list built by the pools' `_subscribe()` in creation order -/
-def callbacks (pools : List PoolSt) : List Sub :=
-  (pools.zipIdx.map fun (p, i) => p.subs.map fun t => ({ type := t, who := i } : Sub)).flatten
+/-! ### the subscription registry -/
+
+/-- the bound method of pool `i` a `_subscribe` / `_unsubscribe` line names -/
+def cbOf (method : String) (i : Nat) : Option Cb :=
+  if method == "_acceptEvent" then some (.accept i)
+  else if method == "handle_rejected" then some (.handleRejected i)
+  else none
+
+/-- the (type, callback) pairs the lines of `_subscribe` / `_unsubscribe` (regenerated `poolSubscribe` /
+    `poolUnsubscribe`) stand for, in order, for pool `i` with configuration `p` -/
+def regEntries (i : Nat) (p : PoolSt) : List SubEntry → List Entry
+  | [] => []
+  | .eachPoolEvent m :: r =>
+    (match cbOf m i with
+     | some c => p.subs.map fun t => (RTy.cls t, c)
+     | none => []) ++ regEntries i p r
+  | .rejectedEvent m :: r =>
+    (match cbOf m i with
+     | some c => [(RTy.rejected, c)]
+     | none => []) ++ regEntries i p r
+
+/-- `EventListenerPool._subscribe()` of pool `i` -/
+def subscribePool (i : Nat) (p : PoolSt) (r : List Entry) : List Entry :=
+  (regEntries i p poolSubscribe).foldl (fun r e => Events.subscribe e.1 e.2 r) r
+
+/-- `EventListenerPool._unsubscribe()` of pool `i` -/
+def unsubscribePool (i : Nat) (p : PoolSt) (r : List Entry) : List Entry :=
+  (regEntries i p poolUnsubscribe).foldl (fun r e => Events.unsubscribe e.1 e.2 r) r
+
+/-- `notify(event)` for an event of class `c`: the pools whose `_acceptEvent` runs, in registry order, one entry per
+    matching subscription -/
+def acceptors (r : List Entry) (c : Cls) : List Nat :=
+  r.filterMap fun e => match e with
+    | (.cls t, .accept i) => if delivers c t then some i else none
+    | _ => none
+
+/-- `notify(EventRejectedEvent(...))`: the pools whose `handle_rejected` runs, in registry order -/
+def rejecters (r : List Entry) : List Nat :=
+  r.filterMap fun e => match e with
+    | (.rejected, .handleRejected i) => some i
+    | _ => none
+
+/-- the registry after the pools present at start-up were created, in configuration order (`__init__` subscribes) -/
+def bootReg : Nat → List PoolSt → List Entry → List Entry
+  | _, [], r => r
+  | i, p :: ps, r => bootReg (i + 1) ps (if p.active && initSubscribes then subscribePool i p r else r)
+
+/-- a daemon that has just created its configured pools -/
+def boot (ps : List PoolSt) : W := { pools := ps, reg := bootReg 0 ps [] }
 
 /-- `events.notify(event)` for a (new) event of class `c` -/
 def notify (c : Cls) (payload : Bytes) (w : W) : W :=
   if w.err.isSome then w else
   let e := w.events.length
   let w1 := { w with events := w.events ++ [{ cls := c, payload := payload }] }
-  (notified (callbacks w.pools) c).foldl (fun acc i => acceptEvent i e false acc) w1
+  (acceptors w.reg c).foldl (fun acc i => acceptEvent i e false acc) w1
 
 /-- the owner test of `handle_rejected`, as the source writes it (generated `rejectedOwnerTest`):
     * `any(process is p for p in procs)`: the rejecting process is one of this pool's process *objects*;
@@ -136,10 +200,10 @@ def owns (p : PoolSt) (who : Option Nat) : Bool :=
 /-- the identity of listener `li` of pool `pi` -/
 def whoOf (w : W) (pi li : Nat) : Option Nat := (w.pools[pi]?).bind (·.ids[li]?)
 
-/-- `notify(EventRejectedEvent(process, event))`: every pool's `handle_rejected` runs; only a pool that owns the
-    rejecting process object re-buffers the event -/
+/-- `notify(EventRejectedEvent(process, event))`: the `handle_rejected` of every pool subscribed to it runs; only a pool
+    that owns the rejecting process object re-buffers the event -/
 def rejected (who : Option Nat) (e : Nat) (w : W) : W :=
-  (List.range w.pools.length).foldl (fun acc i =>
+  (rejecters w.reg).foldl (fun acc i =>
     match acc.pools[i]? with
     | some p => if owns p who then acceptEvent i e true acc else acc
     | none => acc) w
@@ -161,12 +225,14 @@ def absorb (pi li : Nat) (os : List Listener.Out) (w : W) : W :=
     | .rejected (some e) => rejected (whoOf acc pi li) e acc1
     | _ => acc1) w
 
-/-- run a listener-level operation on listener `li` of pool `pi` -/
+/-- run a listener-level operation on listener `li` of pool `pi` (a pool that is not in `process_groups` has no
+    live processes: nothing happens) -/
 def onListener (pi li : Nat) (f : Listener.S → Listener.S) (w : W) : W :=
   if w.err.isSome then w else
   match w.pools[pi]? with
   | none => w
   | some pool =>
+    if !pool.active then w else
     match pool.procs[li]? with
     | none => w
     | some l =>
@@ -244,6 +310,61 @@ def spawnOp (pi li : Nat) (pid : Int) (payload : Bytes) (w : W) : W :=
     if l.pid != 0 then w
     else onListener pi li (spawn pid) (notify .PROCESS_STATE_STARTING payload w)
 
+/-! ### pools added and removed at run time
+
+  `Supervisor.remove_process_group(name)` / `add_process_group(config)` for a listener pool: the statement sequences
+  regenerated from supervisord.py (`groupRemoveSteps`, `groupAddWhenAbsent`, `groupAddWhenPresent`) are executed step
+  by step.  `before_remove()` is `_unsubscribe()`, `make_group()` is `EventListenerPool(config)` whose `__init__`
+  subscribes (regenerated `beforeRemoveUnsubscribes`, `initSubscribes`); the other opaque calls (`after_setuid`, logging)
+  have no effect on pools or registry. -/
+
+/-- `get_unstopped_processes()` is non-empty: some listener of the pool has a live child -/
+def unstopped (p : PoolSt) : Bool := p.procs.any fun l => l.pid != 0
+
+/-- the registered type of the group events -/
+def clsOfGroupEvent (cls : String) : Option Cls :=
+  if cls == "ProcessGroupAddedEvent" then some .PROCESS_GROUP_ADDED
+  else if cls == "ProcessGroupRemovedEvent" then some .PROCESS_GROUP_REMOVED
+  else none
+
+/-- `ProcessGroupEvent.payload()` -/
+def groupPayload (name : String) : Bytes := bytesOfString s!"groupname:{name}\n"
+
+/-- one statement of `add_process_group` / `remove_process_group` for the pool in slot `pi`; the second component is
+    the value returned so far (`none`: still executing) -/
+def gstep (pi : Nat) (s : W × Option Bool) (st : GStep) : W × Option Bool :=
+  if s.2.isSome then s else
+  match s.1.pools[pi]? with
+  | none => s
+  | some p =>
+    match st with
+    | .call f =>
+      if f == "before_remove" && beforeRemoveUnsubscribes then ({ s.1 with reg := unsubscribePool pi p s.1.reg }, none)
+      else s
+    | .insertMade _ =>
+      ({ setPool s.1 pi (fun q => { q with active := true, used := true }) with
+           reg := if initSubscribes then subscribePool pi p s.1.reg else s.1.reg }, none)
+    | .delete => (setPool s.1 pi (fun q => { q with active := false }), none)
+    | .notify cls =>
+      match clsOfGroupEvent cls with
+      | some c => (notify c (groupPayload p.name) s.1, none)
+      | none => s
+    | .ret b => (s.1, some b)
+    | .retIfUnstopped b => if unstopped p then (s.1, some b) else s
+
+def runGroup (pi : Nat) (steps : List GStep) (w : W) : W × Option Bool := steps.foldl (gstep pi) (w, none)
+
+/-- `supervisord.remove_process_group(name)` for the pool in slot `pi` (which is in `process_groups`) -/
+def removeRun (pi : Nat) (w : W) : W × Option Bool := runGroup pi groupRemoveSteps w
+def removeOp (pi : Nat) (w : W) : W := if w.err.isSome then w else (removeRun pi w).1
+
+/-- `supervisord.add_process_group(config)` for the pool configured in slot `pi` -/
+def addRun (pi : Nat) (w : W) : W × Option Bool :=
+  match w.pools[pi]? with
+  | none => (w, none)
+  | some p => runGroup pi (if p.active then groupAddWhenPresent else groupAddWhenAbsent) w
+def addOp (pi : Nat) (w : W) : W := if w.err.isSome then w else (addRun pi w).1
+
 /-! ### line protocol -/
 
 def showPOut : POut → String
@@ -254,9 +375,14 @@ def showPOut : POut → String
   | .lis _ _ _ => ""
   | .discard p _ s => s!"discard:{p}:{s}"
 
-def showW (w : W) (pre : Nat) : String :=
-  let v := ((w.outs.drop pre).map showPOut).filter (· ≠ "")
+def showW (w : W) (pre : Nat) (extra : List String := []) : String :=
+  let v := ((w.outs.drop pre).map showPOut).filter (· ≠ "") ++ extra
   s!"{if v.isEmpty then "-" else ";".intercalate v} | {showErr w.err}"
+
+def showRes : Option Bool → String
+  | some true => "res:true"
+  | some false => "res:false"
+  | none => "res:none"
 
 /-- the operations of a history: what the environment (children, kernel, main loop) can make happen -/
 inductive Op
@@ -269,6 +395,8 @@ inductive Op
   | breakpipe (pi li : Nat)
   | die (pi li : Nat) (d payload : Bytes)
   | spawn (pi li : Nat) (pid : Int) (payload : Bytes)
+  | remove (pi : Nat)     -- `remove_process_group` of the pool in slot `pi`
+  | add (pi : Nat)        -- `add_process_group` of the pool configured in slot `pi`
 
 def applyOp (h : Bytes → HRes) (w : W) : Op → W
   | .notify c b => notify c b w
@@ -280,9 +408,30 @@ def applyOp (h : Bytes → HRes) (w : W) : Op → W
   | .breakpipe pi li => onListener pi li (setP fun p => { p with pipeBroken := true }) w
   | .die pi li d p => dieOp h pi li d p w
   | .spawn pi li pid p => spawnOp pi li pid p w
+  | .remove pi => removeOp pi w
+  | .add pi => addOp pi w
+
+def isActive (w : W) (pi : Nat) : Bool := ((w.pools[pi]?).map (·.active)).getD false
+
+/-- operations that cannot happen: anything on a pool that is not in `process_groups` (it has no processes, is not
+    transitioned, cannot be removed again), and the addition of a pool whose slot has been used already (a pool that is
+    added again is a new object: a new slot) -/
+def blocked (w : W) : Op → Bool
+  | .notify _ _ => false
+  | .transition pi => !isActive w pi
+  | .read pi _ _ => !isActive w pi
+  | .wev pi _ => !isActive w pi
+  | .pstate pi _ _ => !isActive w pi
+  | .cap pi _ _ => !isActive w pi
+  | .breakpipe pi _ => !isActive w pi
+  | .die pi _ _ _ => !isActive w pi
+  | .spawn pi _ _ _ => !isActive w pi
+  | .remove pi => !isActive w pi
+  | .add pi => !isActive w pi && ((w.pools[pi]?).map (·.used)).getD true
 
 /-- one operation of a history; an exception that escaped the previous operation was observed and is gone -/
-def step (h : Bytes → HRes) (w : W) (op : Op) : W := applyOp h { w with err := none } op
+def step (h : Bytes → HRes) (w : W) (op : Op) : W :=
+  if blocked w op then { w with err := none } else applyOp h { w with err := none } op
 
 /-- a whole history -/
 def exec (h : Bytes → HRes) (w : W) (ops : List Op) : W := ops.foldl (step h) w
@@ -322,25 +471,39 @@ def parseOp (l : String) : Option Op :=
     match pi.toNat?, li.toNat?, pid.toInt?, bytesOfHex pay with
     | some pi, some li, some n, some p => some (.spawn pi li n p)
     | _, _, _, _ => none
+  | ["remove", pi] => pi.toNat?.map .remove
+  | ["add", pi] => pi.toNat?.map .add
   | _ => none
+
+/-- what the call answered, for the operations that are calls with a result -/
+def opResult (w : W) : Op → List String
+  | .remove pi => [showRes (removeRun pi { w with err := none }).2]
+  | .add pi => [showRes (addRun pi { w with err := none }).2]
+  | _ => []
 
 def runOps (h : Bytes → HRes) : W → List String → List String
   | _, [] => []
   | w, l :: ls =>
     match parseOp l with
     | none => "bad-op" :: runOps h w ls
-    | some op => let w' := step h w op; showW w' w.outs.length :: runOps h w' ls
+    | some op =>
+      if blocked w op then "bad-op" :: runOps h w ls
+      else let w' := step h w op; showW w' w.outs.length (opResult w op) :: runOps h w' ls
 
-/-- pools=name:bufsize:nlisteners:TYPE+TYPE,… -/
+def mkPool (name bs nl types : String) (shared present : Bool) : Option PoolSt :=
+  match bs.toInt?, nl.toNat?, ((types.splitOn "+").filter (· ≠ "")).mapM parseCls with
+  | some b, some n, some ts =>
+    some { name := name, bufSize := b, subs := ts, procs := List.replicate n Listener.initial,
+           names := (List.range n).map fun j => if shared then s!"l{j}" else s!"{name}_l{j}",
+           active := present, used := present }
+  | _, _, _ => none
+
+/-- pools=name:bufsize:nlisteners:TYPE+TYPE[:absent],…  (`absent`: configured, added to the daemon later by an `add` operation) -/
 def parsePools (spec : String) (shared : Bool) : Option (List PoolSt) :=
   (spec.splitOn ",").mapM fun ps =>
     match ps.splitOn ":" with
-    | [name, bs, nl, types] =>
-      match bs.toInt?, nl.toNat?, ((types.splitOn "+").filter (· ≠ "")).mapM parseCls with
-      | some b, some n, some ts =>
-        some { name := name, bufSize := b, subs := ts, procs := List.replicate n Listener.initial,
-               names := (List.range n).map fun j => if shared then s!"l{j}" else s!"{name}_l{j}" }
-      | _, _, _ => none
+    | [name, bs, nl, types] => mkPool name bs nl types shared true
+    | [name, bs, nl, types, "absent"] => mkPool name bs nl types shared false
     | _ => none
 
 /-- object identities: numbered through all pools, so no two listeners share one -/
@@ -359,8 +522,8 @@ def runCase (cfg : List String) (ops : List String) : List String :=
     | some "unique" => some false
     | _ => none
   match kvGet cfg "handler", shared.bind (fun sh => (kvGet cfg "pools").bind (parsePools · sh)) with
-  | some "default", some ps => runOps defaultHandler { pools := withDir (assignIds 0 ps) } ops
-  | some "strict", some ps => runOps strictHandler { pools := withDir (assignIds 0 ps) } ops
+  | some "default", some ps => runOps defaultHandler (boot (withDir (assignIds 0 ps))) ops
+  | some "strict", some ps => runOps strictHandler (boot (withDir (assignIds 0 ps))) ops
   | _, _ => ops.map fun _ => "bad-config"
 
 end Sv.Pool
